@@ -850,8 +850,10 @@ def mpf_atan(x, prec, rnd=round_fast):
     # Essentially infinity
     if mag > prec+20:
         return atan_inf(sign, prec, rnd)
-    # Essentially ~ x
-    if -mag > prec+20:
+    # Essentially ~ x: atan(x) = x*(1 - x^2/3 + ...) differs from x by far less
+    # than an ulp; the series below cannot resolve that difference when
+    # 2*|mag| > wp, which would defeat directed rounding
+    if -mag > prec//2 + 10:
         return mpf_perturb(x, 1-sign, prec, rnd)
     wp = prec + 30 + abs(mag)
     # For large x, use atan(x) = pi/2 - atan(1/x)
